@@ -101,11 +101,16 @@ func genC09Case() *rapid.Generator[C09Case] {
 				// while the request body is still being read
 				s.TsOffS = rapid.SampledFrom([]int{0, 0, -tol + 1, tol - 1, -1, 1}).Draw(t, "ts_off")
 				s.Mode = rapid.SampledFrom([]string{"same", "touch", "tol-down", "tol-up", "tol-up", "tol-up3", "secret"}).Draw(t, "mode")
-			case "replay", "badsig":
+			case "replay":
 				s.Ref = rapid.IntRange(0, 5).Draw(t, "ref")
+			case "badsig":
+				// a junk-signature request that names a used nonce, with a timestamp of its own inside the window
+				s.Ref = rapid.IntRange(0, 5).Draw(t, "ref")
+				s.TsOffS = rapid.SampledFrom([]int{0, 0, -tol, -tol + 1, tol - 1, -1}).Draw(t, "bad_ts_off")
 			case "resign":
 				s.Ref = rapid.IntRange(0, 5).Draw(t, "ref")
-				s.Mode = rapid.SampledFrom([]string{"same-ts", "now-ts"}).Draw(t, "mode")
+				s.Mode = rapid.SampledFrom([]string{"same-ts", "now-ts", "off-ts", "off-ts"}).Draw(t, "mode")
+				s.TsOffS = rapid.SampledFrom([]int{-tol, -tol + 1, tol - 1, -1}).Draw(t, "re_ts_off")
 			case "adv":
 				s.Ms = rapid.SampledFrom([]int{1, 500, 1000, 1500, 2000, 30000, 45000, 60000, 90000, 400000}).Draw(t, "ms")
 			case "advto":
@@ -316,9 +321,14 @@ func runC09(c C09Case, tolerate bool) *fOutcome {
 			o := sent[s.Ref%len(sent)]
 			off := 0
 			ts := o.ts
-			if s.Mode == "now-ts" {
+			switch s.Mode {
+			case "now-ts":
 				ts = now.Unix()
-			} else {
+			case "off-ts":
+				// a timestamp of its own, elsewhere inside the window
+				off = s.TsOffS
+				ts = now.Add(time.Duration(off) * time.Second).Unix()
+			default:
 				off = int(ts - now.Unix())
 			}
 			a := AuthReq{Route: 0, TsOffS: off, Body: []byte("other-body")}
@@ -332,7 +342,7 @@ func runC09(c C09Case, tolerate bool) *fOutcome {
 				continue
 			}
 			o := sent[s.Ref%len(sent)]
-			a := AuthReq{Route: 0, Muts: []string{"sig-flipbit"}, Body: []byte("x")}
+			a := AuthReq{Route: 0, TsOffS: s.TsOffS, Muts: []string{"sig-flipbit"}, Body: []byte("x")}
 			req := buildAuthReq(routes, a, now, o.nonce)
 			markForgotten(o.nonce)
 			rec := serve(w.ingress, req)
